@@ -1,0 +1,70 @@
+//go:build verif
+
+// Machine-checked contracts for package whispertool (comments only).
+// Read by /verif/gowp; see /verif/DESIGN.md for the contract language.
+package whispertool
+
+//@ func floorMod
+//@   props C01 C04
+//@   requires y > 0
+//@   ensures fmod: result == x fmod y
+
+//@ func (Timestamp).Add
+//@   props C01 C04
+//@   ensures sum: result == (t + d) fmod 4294967296
+
+//@ func (Timestamp).Sub
+//@   props C01 C04
+//@   ensures exact: -2147483648 < t - u && t - u <= 2147483647 ==> result == t - u
+
+//@ func (Timestamp).Truncate
+//@   props C20
+//@   ensures nonpos: d <= 0 ==> result == t
+//@   ensures floor: d > 0 ==> result == t - t fmod d
+
+//@ func (*ArchiveInfo).MaxRetention
+//@   props C01 C03 C04 C07
+//@   requires a != nil
+//@   ensures exact: a.secondsPerPoint >= 0 && a.secondsPerPoint * a.numberOfPoints <= 2147483647 ==> result == a.secondsPerPoint * a.numberOfPoints
+
+//@ func (*ArchiveInfo).interval
+//@   props C01 C04
+//@   requires a != nil && a.secondsPerPoint > 0
+//@   ensures next: t + a.secondsPerPoint <= 4294967295 ==> result == a.secondsPerPoint * (t fdiv a.secondsPerPoint + 1)
+//@   ensures wrapped: result == (t - t fmod a.secondsPerPoint + a.secondsPerPoint) fmod 4294967296
+
+//@ func (*ArchiveInfo).intervalForWrite
+//@   props C01 C02 C03
+//@   requires a != nil && a.secondsPerPoint > 0
+//@   ensures floor: result == a.secondsPerPoint * (t fdiv a.secondsPerPoint)
+//@   ensures le: result <= t && t - result < a.secondsPerPoint
+
+//@ func (*ArchiveInfo).pointIndex
+//@   props C01 C06
+//@   requires a != nil && a.secondsPerPoint > 0 && a.numberOfPoints > 0
+//@   ensures range: 0 <= result && result < a.numberOfPoints
+//@   ensures slot: -2147483648 < interval - baseInterval && interval - baseInterval <= 2147483647
+//@                 ==> result == ((interval - baseInterval) / a.secondsPerPoint) fmod a.numberOfPoints
+//@   ensures aligned: -2147483648 < interval - baseInterval && interval - baseInterval <= 2147483647
+//@                 && (interval - baseInterval) fmod a.secondsPerPoint == 0
+//@                 ==> result == ((interval - baseInterval) fdiv a.secondsPerPoint) fmod a.numberOfPoints
+
+//@ func (*ArchiveInfo).pointOffsetAt
+//@   props C01 C06
+//@   requires a != nil
+//@   ensures exact: 0 <= index && a.offset + 12 * index <= 4294967295 ==> result == a.offset + 12 * index
+
+//@ spec sortedByTime(points []Point) bool = forall i, j :: 0 <= i && i < j && j < len(points) ==> points[i].Time <= points[j].Time
+
+//@ func extractPoints
+//@   props C03
+//@   requires sortedByTime(points)
+//@   requires 0 <= maxRetention && maxRetention <= now
+//@   ensures split: len(currentPoints) + len(remainingPoints) == len(points)
+//@   ensures remaining_prefix: forall j :: 0 <= j && j < len(remainingPoints) ==> remainingPoints[j] == points[j]
+//@   ensures current_suffix: forall j :: 0 <= j && j < len(currentPoints) ==> currentPoints[j] == points[len(remainingPoints) + j]
+//@   ensures remaining_old: forall j :: 0 <= j && j < len(remainingPoints) ==> points[j].Time <= now - maxRetention
+//@   ensures current_young: forall j :: len(remainingPoints) <= j && j < len(points) ==> points[j].Time > now - maxRetention
+//@ loop extractPoints#0
+//@   invariant bounds: -1 <= i && i < len(points)
+//@   invariant young: forall j :: i < j && j < len(points) ==> points[j].Time > maxAge
